@@ -25,6 +25,18 @@ def sha(a):
     return hashlib.sha1(np.ascontiguousarray(a).tobytes()).hexdigest()[:12]
 
 
+def _poison(f):
+    """A compile_function that deliberately changes what the compiled operation computes: used for ONE throw-away compute, to
+    see whether finalising a plan with a compile_function leaks into the user's arrays (later plain computes must not see it)."""
+    def g(*a, **k):
+        r = f(*a, **k)
+        try:
+            return r + 1000
+        except Exception:
+            return r
+    return g
+
+
 def replay(hist, rng, noise=True):
     """Returns dict(failures=[...], steps=n).  A failure = (step index, what)."""
     import cubed
@@ -42,6 +54,8 @@ def replay(hist, rng, noise=True):
         src_sum = sha(zsrc[:])
         targets = {}                    # t -> dict(path, expect (np or None), by (handle index))
         ninput = 0
+        poisoned = False
+        stored_yet = False
         for k, st in enumerate(hist, 1):
             a = st["a"]
             try:
@@ -64,6 +78,7 @@ def replay(hist, rng, noise=True):
                         H.append(xp.subtract(xp.multiply(H[i], 3), H[j]))
                         S.append(3 * S[i] - S[j])
                 elif a in ("storelazy", "storeagain"):
+                    stored_yet = True
                     i, t = st["i"], st["t"]
                     path = os.path.join(s.work, f"user-target-{t}.zarr")
                     out = cubed.to_zarr(H[i], path, compute=False)
@@ -75,8 +90,17 @@ def replay(hist, rng, noise=True):
                     kw = {}
                     if noise:
                         kw["optimize_graph"] = rng.random() < 0.7
-                        if rng.random() < 0.3:
+                        if rng.random() < 0.3 and not poisoned:
                             kw["resume"] = True
+                        if not stored_yet and rng.random() < 0.35:
+                            # throw-away compute with a value-changing compile_function (result ignored; the chunks it leaves in
+                            # the intermediate store are overwritten by the plain compute below, which never resumes after this)
+                            poisoned = True
+                            try:
+                                H[i].compute(compile_function=_poison, optimize_graph=kw["optimize_graph"])
+                            except Exception:
+                                pass
+                            kw.pop("resume", None)
                     r = H[i].compute(**kw)
                     if not np.array_equal(np.asarray(r), S[i]):
                         failures.append((k, f"compute(h{i}) returned values different from those fixed when it was built"))
@@ -140,7 +164,11 @@ def run(chk):
         chk.trace_validated()
         if failures:
             what = f"history {[(st['a'], st['i'], st['j'], st['t']) for st in hist]}: step {failures[0][0]}: {failures[0][1]}"
-            chk.fail_or_known(what, replay=dict(history=hist, failures=failures, model_taint=sorted(taint)), taint=sorted(taint), kind="history")
+            # only a taint that had arisen by the failing step can excuse the failure
+            kf = failures[0][0]
+            t_at = sorted(hist[kf]["tb"]) if kf < len(hist) else sorted(taint)
+            chk.fail_or_known(what, replay=dict(history=hist, failures=failures, model_taint=sorted(taint), taint_at_failure=t_at),
+                              taint=t_at, kind="history")
             if not mbad:
                 agree["model_ok_real_bad_tainted"] += 1
         elif mbad:
